@@ -22,6 +22,7 @@ import (
 	"encoding/binary"
 	"fmt"
 	"net"
+	"sort"
 	"strconv"
 	"strings"
 	"syscall"
@@ -41,7 +42,10 @@ import (
 
 func init() {
 	register("extract", extractDomain)
-	registerOp("decnas", func(a []string) string { exNeed(a, 2); return exFmtIP(stgutg.DecodePDUSessionNASPDU(exWithSlack(aHex(a[0]), aHex(a[1])))) })
+	registerOp("decnas", func(a []string) string {
+		exNeed(a, 2)
+		return exFmtIP(stgutg.DecodePDUSessionNASPDU(exWithSlack(aHex(a[0]), aHex(a[1]))))
+	})
 	registerOp("decxfer", func(a []string) string {
 		exNeed(a, 2)
 		t, ip := stgutg.DecodePDUSessionResourceSetupRequestTransfer(exWithSlack(aHex(a[0]), aHex(a[1])))
@@ -607,6 +611,35 @@ func extractDomain(e *emitter) {
 			continue
 		}
 		e.op("establish", rpp, np, hx(buildAccept(ap)), hx(buildTransfer(tp)))
+	}
+	// 3b. the optional-IE walk at the END of the container: for every IEI of the length table (and two that are not in
+	// it), the container stops right after the IEI, inside its length indicator, or its length claims more than is left;
+	// alone and behind a well-formed IE / a half-octet IE (termination and panic classes on every branch of the walk)
+	{
+		var ieis []int
+		for id := range stgutg.PDUSessionEstablishmentAcceptOptionalElementsLength {
+			ieis = append(ieis, int(id))
+		}
+		sort.Ints(ieis)
+		ieis = append(ieis, 0x33, 0x7f)
+		frame := func(op []byte) []byte {
+			qos := []byte{0x01, 0x00, 0x06, 0x31, 0x31, 0x01, 0x01, 0xff, 0x01} // one QoS rule, 9 octets
+			pc := []byte{0x2e, 0x05, 0x01, 0xc2, 0x11, 0x00, byte(len(qos))}
+			pc = append(pc, qos...)
+			pc = append(pc, 0x06, 0x01, 0x00, 0x64, 0x01, 0x00, 0x64) // session AMBR
+			pc = append(pc, op...)
+			b := []byte{0x7e, 0x02, 0x11, 0x22, 0x33, 0x44, 0x00} // security header
+			b = append(b, 0x7e, 0x00, 0x68, 0x01, byte(len(pc)>>8), byte(len(pc)))
+			return append(b, pc...)
+		}
+		for _, pre := range [][]byte{{}, {0x59, 0x24}, {0x80}, {0x59, 0x24, 0xc1}} {
+			for _, id := range ieis {
+				for _, tail := range [][]byte{{}, {0x00}, {0x05}, {0x00, 0x00}, {0x00, 0x05}, {0x00, 0x05, 0xaa}, {0xff, 0xff}, {0x01, 0xaa, 0x29, 0x05, 0x01, 10, 0, 0, 1}} {
+					op := append(append(append([]byte{}, pre...), byte(id)), tail...)
+					e.op("decnas", hx(frame(op)), e.slack())
+				}
+			}
+		}
 	}
 	// 4. arbitrary, truncated and mutated byte strings (termination, panic classes)
 	hangs := 0
